@@ -129,7 +129,7 @@ pub fn run(rep: &mut Report) {
         triple_slow::<P8E0>(t >> 16, (t >> 8) & 0xff, t & 0xff, &[0, 1, 2], l)
     });
     let (g16, t16, g32, t32) = match tier {
-        Tier::Quick => (1_000_000, 600_000, 1_500_000, 800_000),
+        Tier::Quick => (1_000_000, 600_000, 2_500_000, 2_000_000),
         Tier::Thorough => (6_000_000, 3_000_000, 20_000_000, 8_000_000),
     };
     rep.generated("P16E1 generated triples", g16, || gen::triple(16, 1), |&(a, b, c), l| triple_slow::<P16E1>(a, b, c, &[0, 1, 2], l));
